@@ -503,6 +503,7 @@ def run_history(ck, classes, bks, pool, fam, cls, n, aux, ops, psi0, oracle=True
                 case.indomain = case.indomain and wf
                 case.notes.append("step %d: statevector raised %s on an ill-formed content (outside the property's domain)" % (idx, err))
             elif oracle and wf:
+                ck.count("oracle_eval_vs_reference[%s]" % cls, 1)
                 ref = ref_layers(pool, n, content, psi0) if kind != "b" else ref_items(pool, n, content, psi0)
                 got = np.asarray(out, dtype=complex).reshape(-1)
                 if got.shape != ref.shape or got.tobytes() != ref.tobytes():
